@@ -504,9 +504,9 @@ class Syntax(JupyterMixin):
 
         lines = text.split("\n", allow_blank=True)
         if self.line_range:
-            lines = lines[line_offset:end_line]
+            lines = lines[line_offset : max(0, end_line)]
 
-        if self.indent_guides and not options.ascii_only:
+        if self.indent_guides and not options.ascii_only and lines:
             style = (
                 self._get_base_style()
                 + self._theme.get_style_for_token(Comment)
@@ -516,7 +516,7 @@ class Syntax(JupyterMixin):
                 Text("\n")
                 .join(lines)
                 .with_indent_guides(self.tab_size, style=style)
-                .split("\n")
+                .split("\n", allow_blank=True)
             )
 
         numbers_column_width = self._numbers_column_width
